@@ -383,6 +383,22 @@ def settle(r):
         r.core.setBlockMassParams()
 
 
+CUSTOM_FLAGS = ("VERIFA", "VERIFB")
+
+
+def register_custom_flags(reverse=False):
+    """two plugin-style flags (what App.registerPluginFlags does with a plugin's defineFlags()).  The checker's process
+    registers them as VERIFA, VERIFB; the fresh process in the opposite order: same set of flags, other bit positions, so
+    FlagSerializer has to convert the stored bit fields."""
+    armi_ready()
+    from armi.reactor.flags import Flags
+    from armi.utils.flags import auto
+
+    for name in (reversed(CUSTOM_FLAGS) if reverse else CUSTOM_FLAGS):
+        if name not in Flags.fields():
+            Flags.extend({name: auto()})
+
+
 class _cwd:
     def __init__(self, d):
         self.d = d
@@ -404,6 +420,7 @@ class History:
         self.id, self.family, self.variant, self.rng = hid, family, variant, rng
         self.wd = os.path.join(workdir, hid)
         os.makedirs(self.wd, exist_ok=True)
+        register_custom_flags()
         self.w = gen_reactor.build(self.wd, family, variant, extra_settings={"trackAssems": True})
         self.r = self.w.r
         self.ev, self.how = [], []
@@ -422,7 +439,8 @@ class History:
     # -- mutations (each returns a short description or None if not applicable) ---------------------------------
     def mutate(self, n):
         kinds = ["AssignParam"] * 3 + ["AssignShaped"] * 3 + ["SetComposition", "SetTemperature", "Swap", "Rotate", "Discharge",
-                                                               "AssignNoDefault", "SetGridOffset", "SetTD"]
+                                                               "AssignNoDefault", "SetGridOffset", "SetTD", "AssignFlags",
+                                                               "AddEmptyStructure"]
         if self.family == "hex_third":
             kinds.append("GrowToFull")
         for _ in range(n):
@@ -585,6 +603,31 @@ class History:
         self.how.append("sweep of %d numeric parameters" % n)
         return n
 
+    def m_AssignFlags(self):
+        """plugin flags on blocks / components / assemblies (another process may hold them at other bit positions)"""
+        from armi.reactor.flags import Flags
+
+        objs = [o for o in self._objs() if "flags" in o.p.paramDefs.names]
+        picked = self.rng.sample(objs, min(len(objs), self.rng.randrange(2, 6)))
+        for i, o in enumerate(picked):
+            extra = (Flags.VERIFA, Flags.VERIFB, Flags.VERIFA | Flags.VERIFB)[i % 3]
+            o.p.flags = o.p.flags | extra
+        return "AssignFlags on %d objects" % len(picked)
+
+    def m_AddEmptyStructure(self):
+        """an ex-core container whose grid makes its locations on demand and holds nothing yet (an empty grid is falsy)"""
+        from armi.reactor import grids
+        from armi.reactor.excoreStructure import ExcoreStructure
+
+        if any(type(c) is ExcoreStructure for c in self.r):
+            return None
+        st = ExcoreStructure("Storage")
+        st.spatialGrid = (grids.HexGrid.fromPitch(20.0, numRings=0) if self.rng.random() < 0.5
+                          else grids.CartesianGrid.fromRectangle(30.0, 30.0, numRings=0))
+        st.spatialGrid.armiObject = st
+        self.r.add(st)
+        return "AddEmptyStructure %s (%d locations)" % (type(st.spatialGrid).__name__, len(st.spatialGrid))
+
     def m_SetTD(self):
         """theoretical-density fraction of a material together with the component parameter that records it"""
         from armi.reactor.components import Component
@@ -693,7 +736,7 @@ class History:
             db = Database("%s.h5" % self.w.cs.caseTitle if tag == "a" else "%s-%s.h5" % (self.id, tag), "w")
             with _cwd(self.wd):
                 db.open()
-                if tag == "a":
+                if tag in ("a", "e"):
                     db.writeInputsToDB(self.w.cs)
             self.dbs[tag] = db
         return self.dbs[tag]
@@ -723,10 +766,10 @@ class History:
         self.ev.append({"a": a, "post": {"file": project_file(db.h5db[getH5GroupName(cycle, node, label)])}})
         return True
 
-    def write(self, slot, label=None):
-        """label: a named state point of the same time node (group cXXnYY<label>)"""
+    def write(self, slot, label=None, tag="a"):
+        """label: a named state point of the same time node (group cXXnYY<label>); tag "e": the database of an EARLIER run"""
         before = self.details.get("live@%d" % len(self.ev), (None,))[0]
-        ok = self._write(self.r, slot, "a", "Write", {}, label=label)
+        ok = self._write(self.r, slot, tag, "Write", {}, label=label)
         # frame condition "a write leaves the reactor as it was": equality of two projections of the same object
         after, _, _ = project(self.r)
         if before is not None and after != before:
@@ -737,8 +780,12 @@ class History:
         return self._write(self.loaded[h], slot, "b", "Resave", {"h": h})
 
     def load(self, slot, h, via="load"):
-        """via: the public entry point used -- Database.load (settings + newly parsed blueprints given), Database.loadReadOnly
-        or DatabaseInterface.loadState (both read settings and blueprints from the file)"""
+        """via: the public entry point used --
+        load   Database.load(cycle, node, cs, newly parsed blueprints)
+        neg    the same with the node counted from the end of its cycle (node < 0; the case has cycles of 3 and 5 nodes)
+        ro     Database.loadReadOnly            state  DatabaseInterface.loadState(cycle, node, name, fileName)
+        own    DatabaseInterface.loadState(cycle, node) of a follow-on case: its own open database AND the reload database
+               (cs["reloadDBName"], file "e") hold the time node with different contents; the own database must win"""
         from armi.bookkeeping.db.database import Database
         from harness import gen_reactor
 
@@ -751,7 +798,7 @@ class History:
             a["via"] = via
         db = None
         try:
-            if via == "state":
+            if via in ("state", "own"):
                 from armi.bookkeeping.db.databaseInterface import DatabaseInterface
 
                 class _Op:      # DatabaseInterface.loadState hands the loaded reactor to its operator
@@ -760,15 +807,29 @@ class History:
                     def reattach(self, r, cs=None):
                         self.r = r
 
-                dbi = DatabaseInterface(self.r, self.w.cs)
-                dbi.o = _Op()
-                dbi.loadState(cycle, node, timeStepName=label or "", fileName=self.paths[tag])
+                if via == "own":
+                    if "e" in self.dbs:
+                        self.close_db("e")
+                    dbi = DatabaseInterface(self.r, self.w.cs.modified(newSettings={"reloadDBName": self.paths["e"]}))
+                    dbi.o = _Op()
+                    dbi._db = db = Database(self.paths[tag], "r")
+                    db.open()
+                    dbi.loadState(cycle, node, timeStepName=label or "")
+                else:
+                    dbi = DatabaseInterface(self.r, self.w.cs)
+                    dbi.o = _Op()
+                    dbi.loadState(cycle, node, timeStepName=label or "", fileName=self.paths[tag])
                 r2 = dbi.o.r
             else:
                 db = Database(self.paths[tag], "r")
                 db.open()
                 if via == "ro":
                     r2 = db.loadReadOnly(cycle, node, statePointName=label)
+                elif via == "neg":
+                    from harness.gen_reactor import LAST_NODE
+
+                    r2 = db.load(cycle, node - LAST_NODE[cycle] - 1, cs=self.w.cs, bp=gen_reactor.fresh_blueprints(self.w),
+                                 statePointName=label)
                 else:
                     r2 = db.load(cycle, node, cs=self.w.cs, bp=gen_reactor.fresh_blueprints(self.w), statePointName=label)
             # (a query that raises on the loaded reactor is part of the same observation)
@@ -853,19 +914,31 @@ def play(hid, family, variant, seed, workdir, nmut=6, two_snapshots=True, fresh=
     rng = random.Random(seed)
     h = History(hid, family, variant, rng, workdir)
     k = int(hid[1:]) if hid[1:].isdigit() else seed
-    sweep_it, label_it = k % 2 == 0, k % 2 == 1 or k % 4 == 0
+    from harness.gen_reactor import LAST_NODE
+
+    sweep_it, label_it, own_it = k % 2 == 0, k % 2 == 1 or k % 4 == 0, k % 3 == 2 or k == 0
     via2 = ("load", "ro", "state")[k % 3]
     try:
         h.mutate(rng.randrange(0, nmut + 1))
-        h.advance(0)
+        if fresh or k % 2:
+            h.how.append(h.m_AssignFlags())      # plugin flags on some objects of every history another process will read
+        h.advance(0, LAST_NODE[0])
         h.state()
         ok1 = h.write(1)
-        ok2 = ok5 = False
+        ok2 = ok5 = ok6 = False
         if two_snapshots:
+            if own_it and ok1:
+                # the database of an earlier run holds the time node the follow-on case is about to re-compute
+                h.advance(1, LAST_NODE[1])
+                h.state()
+                ok6 = h.write(6, tag="e")
             h.mutate(rng.randrange(1, nmut + 1))
             if sweep_it:
                 h.sweep()
-            h.advance(1)
+            for a in list(h.r.core)[:1]:
+                a.p.daysSinceLastMove = float(a.p.daysSinceLastMove) + 2.5
+            h.how.append("daysSinceLastMove += 2.5")
+            h.advance(1, LAST_NODE[1])
             h.state()
             ok2 = h.write(2)
             if ok2 and label_it:
@@ -877,9 +950,9 @@ def play(hid, family, variant, seed, workdir, nmut=6, two_snapshots=True, fresh=
                 h.state()
                 ok5 = h.write(5, label="EOL")
         if ok1 and not h.dead:
-            _ = h.load(1, 1) and h.load(1, 2, via2)
+            _ = h.load(1, 1, ("neg", "load")[k % 2]) and h.load(1, 2, via2)
         if ok2 and not h.dead:
-            h.load(2, 3, "ro" if ok5 else "load")
+            h.load(2, 3, "own" if ok6 else "ro" if ok5 else ("load", "neg")[k % 2])
         if ok5 and not h.dead:
             h.load(5, 7, ("ro", "state")[k % 2] if k % 4 else "ro")
         if ok1 and not h.dead and h.resave(1, 3):
@@ -899,6 +972,7 @@ def fresh_main(jobfile, outfile):
     import pickle
 
     _quiet()
+    register_custom_flags(reverse=True)
     if os.environ.get("C04_FRESH_MUTANT"):
         _fresh_mutant(os.environ["C04_FRESH_MUTANT"])
     from armi import settings
@@ -958,10 +1032,23 @@ def _mut_readparams_setattr():
     from armi.bookkeeping.db import database as D
 
     f = _src_mutant(D.Database._readParams, "c.p[paramName] = val", "setattr(c.p, pDef.fieldName, val)")
+    old = D.Database.__dict__["_readParams"]
     D.Database._readParams = f if isinstance(f, staticmethod) else staticmethod(f)
+    return lambda: setattr(D.Database, "_readParams", old)
 
 
-_MUTANTS = {"readparams_setattr": _mut_readparams_setattr}
+def _mut_flags_set_equal():
+    """round 3 seed 1: stored flag bit fields are read directly whenever the SET of flag names is the same"""
+    from armi.reactor import composites as CO
+
+    f = _src_mutant(CO.FlagSerializer._unpackImpl.__func__, "if all(i == j for i, j in zip(flagOrderPassed, flagOrderNow)):",
+                    "if set(flagOrderPassed) == set(flagOrderNow) or all(i == j for i, j in zip(flagOrderPassed, flagOrderNow)):")
+    old = CO.FlagSerializer.__dict__["_unpackImpl"]
+    CO.FlagSerializer._unpackImpl = f if isinstance(f, classmethod) else classmethod(f)
+    return lambda: setattr(CO.FlagSerializer, "_unpackImpl", old)
+
+
+_MUTANTS = {"readparams_setattr": _mut_readparams_setattr, "flags_set_equal": _mut_flags_set_equal}
 
 
 def run_fresh(hs, workdir):
@@ -1131,6 +1218,10 @@ class GenericAdapter:
             return g
         if raw == "Axial#1":
             return grids.AxialGrid.fromNCells(3)
+        if raw == "Hex#0":       # locations on demand, none yet: len() == 0, so the grid object is falsy
+            g = grids.HexGrid.fromPitch(3.0, numRings=0)
+            g._geomType = "hex"
+            return g
         raise AssertionError(raw)
 
     def build(self, t):
@@ -1436,7 +1527,7 @@ def run(rep, tier, seed):
     rep.extra["mutations_applied"] = muts
     rep.extra["numeric_parameters_never_assigned_by_the_driver"] = NOT_ASSIGNED
     rep.extra["load_realisations"] = {v: sum(1 for t in traces for e in t["ev"] if e["a"]["n"] == "Load" and e["a"].get("via", "load") == v
-                                             and "p" not in e["a"]) for v in ("load", "ro", "state")}
+                                             and "p" not in e["a"]) for v in ("load", "neg", "ro", "state", "own")}
     rep.extra["labelled_snapshots"] = sum(1 for t in traces for e in t["ev"] if e["a"].get("label"))
     rep.assume(
         "I1 child order is compared in the canonical sibling order writer and loader apply (ARMI's sortReactor behaviour)",
@@ -1592,13 +1683,12 @@ def selftest():
     @contextlib.contextmanager
     def fresh_process_mutant(name):
         """in this process and, through the environment, in the fresh process"""
-        old = D.Database.__dict__["_readParams"]
         os.environ["C04_FRESH_MUTANT"] = name
-        _MUTANTS[name]()
+        undo = _MUTANTS[name]()
         try:
             yield
         finally:
-            D.Database._readParams = old
+            undo()
             del os.environ["C04_FRESH_MUTANT"]
 
     # built eagerly: a source text that no longer matches must fail the selftest, not count as a caught mutant
@@ -1608,8 +1698,23 @@ def selftest():
     _sm3 = _src_mutant(C.Component.finalizeLoadingFromDB, "self.material.adjustTD(self.p.theoreticalDensityFrac)", "self.p.theoreticalDensityFrac != 1.0 and self.material.adjustTD(self.p.theoreticalDensityFrac)")
     _sm4 = _src_mutant(AS.Assembly.moveTo, "        self.p.daysSinceLastMove = 0.0\n", "    self.p.daysSinceLastMove = 0.0\n")
     _sm5 = _src_mutant(D.Database.loadReadOnly, "self.load(cycle, node, statePointName=statePointName, allowMissing=True)", "self.load(cycle, node, allowMissing=True)")
+    from armi.bookkeeping.db import databaseInterface as DI
+
+    _sm6 = _src_mutant(L.Layout._createLayout, "if comp.spatialGrid is not None:", "if comp.spatialGrid:")
+    _sm7 = _src_mutant(DI.DatabaseInterface._getLoadDB, """        if self._db is not None:
+            yield self._db
+        if os.path.exists(self.cs["reloadDBName"]):
+            yield Database(self.cs["reloadDBName"], "r")""", """        if os.path.exists(self.cs["reloadDBName"]):
+            yield Database(self.cs["reloadDBName"], "r")
+        if self._db is not None:
+            yield self._db""")
+    _sm8 = _src_mutant(D.Database.load, "numNodes = getNodesPerCycle(cs)[cycle]", "numNodes = getNodesPerCycle(cs)[cycle - 1]")
     P = patched
     mutants = [
+        ("round 3 seed 1: FlagSerializer reads bit fields directly when the SET of flag names is equal", lambda: fresh_process_mutant("flags_set_equal")),
+        ("round 3 seed 3: _createLayout tests the truth of the grid (an empty grid is falsy)", lambda: P(L.Layout, "_createLayout", _sm6)),
+        ("round 3 seed 4: _getLoadDB offers the reload database before the case's own", lambda: P(DI.DatabaseInterface, "_getLoadDB", _sm7)),
+        ("round 3 seed 5: Database.load counts a negative node with the previous cycle's length", lambda: P(D.Database, "load", _sm8)),
         ("seed 1: JaggedArray advances its offset by len(array) instead of array.size", lambda: P(
             J.JaggedArray, "__init__", _sm0)),
         ("seed 2: StructuredGrid.reduce keeps an offset only if a component is positive", lambda: P(
